@@ -104,6 +104,14 @@ chk("C11", MAPTXT + " Thick maps: symbolic dz (one pixel .. 3 windows), number/p
     TRUST + " As C03; dz in two ranges (<= window, >= window) so that max(dx,dy,dz) is resolved.",
     "symbolic execution of map(dz=...)/evaluate_on_grid.py_func with a recorder cut; SMT (QF_NRA, LRA+ToInt)", "DESIGN.md section 5 C11")
 
+chk("C19", "Precedence: CrossHair confirms over all paths, for each of the 8 options symbolic at layer and call level (plus all-set / none-set and "
+    "all 256 set-masks), that parse_layer / Layer.update give the layer-level value priority, leave the given Layer and its option dict "
+    "untouched and share no dict with the result (reachability twin per contract). Non-modification and repeatability: the real map(plot=False) "
+    "(thin/thick, resolution int/dict/partial dict/None) and histogram2d(plot=False) run twice on symbolic data with all argument objects "
+    "snapshotted (terms, units, names, option fields, dict contents, identities); the second result must be provably equal to the first.",
+    TRUST + " PARTIAL: histogram1d, scatter, plot and every plot=True path go through matplotlib and are not covered.",
+    "CrossHair contracts on parse_layer/Layer + symbolic execution of map/histogram2d with argument snapshots", "DESIGN.md section 5 C19")
+
 for pid in ["C01", "C03", "C04", "C05", "C06", "C07", "C08", "C09", "C10", "C11", "C12", "C13", "C14", "C15", "C16",
             "C17", "C18", "C19", "C20"]:
     NA.setdefault(pid, "check under construction in this round (solver-based harness designed in DESIGN.md section 5, not yet registered)")
